@@ -186,9 +186,9 @@ func runInBubble(sc *Scenario, res *ImplRun) {
 		namer: NewPubNamer(), env: &canonEnv{sidMap: map[string]string{}, authIDs: map[string]bool{}}}
 	cfg := &router.Config{}
 	for i := range sc.Realms {
-		if sc.Template && i >= 1 {
-			if i == 1 {
-				tpl := run.realmConfig(1)
+		if sc.Template && i >= sc.TplFrom {
+			if i == sc.TplFrom {
+				tpl := run.realmConfig(i)
 				tpl.URI = ""
 				cfg.RealmTemplate = tpl
 			}
